@@ -53,7 +53,7 @@ def _gr(prop, tier, seed, replay=None):
 
 
 CHECKS = {
-    'C06': _gr, 'C07': _gr, 'C08': _gr,
+    'C06': _gr, 'C09': _gr, 'C07': _gr, 'C08': _gr,
     'C10': _trn,
     'C11': _tf, 'C12': _tf, 'C05': _tf, 'C13': _tf, 'C14': _tf, 'C15': _tf, 'C04': _tf,
     'C20': _labels,
